@@ -2,6 +2,7 @@
 CONSTANTS
   MaxPath = 1
   NFlowsA = 0
+  SymLits <- SymNone
   MaxFlows = 2
   FlowDomain <- FlowsB1
   TxnDomain <- TxnsB
@@ -10,5 +11,5 @@ CONSTANTS
   KF_EndTest = FALSE
   KF_WildNew = TRUE
 SPECIFICATION ISpec
-INVARIANTS InvCorrect InvOrder InvBuild
+INVARIANTS InvCorrect InvOrder InvBuild Witnesses
 CHECK_DEADLOCK FALSE
